@@ -401,11 +401,14 @@ func (r *runner) burst(k int) (passed int64, err error) {
 			for atomic.LoadInt32(&start) == 0 {
 				runtime.Gosched()
 			}
+			defer func() {
+				_ = recover() // a handler that aborts later (op 7): the server would drop the connection
+				rq.done <- struct{}{}
+			}()
 			r.front.ServeHTTP(w, req)
 			if atomic.LoadInt32(&rq.fell) == 1 {
 				fell <- struct{}{}
 			}
-			rq.done <- struct{}{}
 		}()
 	}
 	ready.Wait()
@@ -519,6 +522,7 @@ func (c *cbComp) Run(h *hlib.History) ([]hlib.Mon, bool) {
 			// the wall clock is set back (the breaker's deadlines are wall-clock instants): only in histories made for it
 			total += op[1]
 		case len(op) == 1 && (op[0] == 3 || op[0] == 5):
+		case len(op) == 2 && op[0] == 7 && op[1] >= 0:
 		case len(op) == 2 && op[0] == 4 && op[1] >= 1 && op[1] <= 64:
 		default:
 			return nil, false
@@ -549,6 +553,9 @@ func (c *cbComp) Run(h *hlib.History) ([]hlib.Mon, bool) {
 		rq := req.Context().Value(reqKey{}).(*request)
 		r.entered <- rq
 		code := <-rq.release
+		if code < 0 { // the handler gives up (client gone, connection reset halfway): what httputil.ReverseProxy does
+			panic(http.ErrAbortHandler)
+		}
 		if code%3 == 0 {
 			w.WriteHeader(http.StatusEarlyHints) // an interim response first: the response's status is the final one
 		}
@@ -909,6 +916,28 @@ func (c *cbComp) Run(h *hlib.History) ([]hlib.Mon, bool) {
 			}
 			prev = cur
 
+		case 7: // Abort: the handler of an in-flight request panics with http.ErrAbortHandler: no response, nothing recorded,
+			// and whatever the breaker's state, the request remains one that was passed on
+			if len(r.inflight) == 0 {
+				h.Ops[step] = []int64{3}
+				h.Obs = append(h.Obs, []int64{})
+				continue
+			}
+			k := int(op[1] % int64(len(r.inflight)))
+			rq := r.inflight[k]
+			r.inflight = append(r.inflight[:k:k], r.inflight[k+1:]...)
+			if err := r.finish(rq, -1); err != nil {
+				mon("C18", step, "abort: %v", err)
+				return mons, true
+			}
+			r.settle()
+			cur := r.state()
+			nT, nS := r.effects(expT, expS)
+			h.Obs = append(h.Obs, []int64{cur, nT, nS})
+			hlib.Count("handlers_that_abort", 1)
+			if cur != prev {
+				mon("C18", step, "a handler that aborted (no response) moved the state %d -> %d", prev, cur)
+			}
 		case 5: // Wrap: the protected handler is exchanged (for an equivalent one), in whatever state the breaker is
 			cb.Wrap(next)
 			h.Obs = append(h.Obs, []int64{})
@@ -1291,6 +1320,7 @@ func (c *cbComp) Gen(rng *rand.Rand, idx int, tier string, targeted bool) hlib.H
 			h.Ops = append(h.Ops, []int64{5})
 		case r < 4:
 			perr = []int{0, 20, 50, 80, 100}[rng.Intn(5)]
+			h.Ops = append(h.Ops, []int64{7, int64(rng.Intn(8))}) // and one of the requests in flight is aborted by its handler
 		case r < 12: // burst
 			if rng.Intn(3) == 0 {
 				together()
@@ -1347,6 +1377,12 @@ func (c *cbComp) Describe(h *hlib.History) interface{} {
 		switch op[0] {
 		case 5:
 			ops = append(ops, "Wrap(same handler)")
+		case 7:
+			s := fmt.Sprintf("Abort(#%d: the handler panics with http.ErrAbortHandler)", op[1])
+			if len(obs) == 3 {
+				s += fmt.Sprintf(" -> %s, onTripped=%d onStandby=%d", name(obs[0]), obs[1], obs[2])
+			}
+			ops = append(ops, s)
 		case 4:
 			s := fmt.Sprintf("%d requests arrive together", op[1])
 			if len(obs) == 4 {
